@@ -358,12 +358,17 @@ def run_check(prop, tier, seed):
               coverage=coverage,
               assumptions=list(getattr(mod, 'ASSUMPTIONS', [])),
               wall_s=round(time.time() - t0, 2), violations=len(violations))
-    os.makedirs(os.path.join(ROOT, 'evidence'), exist_ok=True)
-    tmp = os.path.join(ROOT, 'evidence', '%s.json.tmp' % prop)
+    # VERIF_EVIDENCE_DIR: used only by tools/seedtest.py and the mutant
+    # self-test so that runs against a modified tree do not overwrite the
+    # evidence of the real tree
+    evdir = os.environ.get('VERIF_EVIDENCE_DIR') or \
+        os.path.join(ROOT, 'evidence')
+    os.makedirs(evdir, exist_ok=True)
+    tmp = os.path.join(evdir, '%s.json.tmp' % prop)
     with open(tmp, 'w') as f:
         json.dump(ev, f, indent=1, sort_keys=True, default=repr)
         f.write('\n')
-    os.replace(tmp, os.path.join(ROOT, 'evidence', '%s.json' % prop))
+    os.replace(tmp, os.path.join(evdir, '%s.json' % prop))
     print('%s %s seed=%d: %d evaluations, %d distinct non-trivial, '
           '%d known-finding bucket(s), %d violation bucket(s), %.1fs' % (
               prop, tier, seed, evals, distinct_nt,
